@@ -3,9 +3,11 @@ import RbModel.RecL.Syntax
 import RbModel.RecL.Ref
 import RbModel.RecL.Compile
 import RbModel.RecL.Vm
+import RbModel.RecL.WfB
 /-! Line-protocol handlers for the models with records and fixed-length strings (requests `recl.*`):
 `recl.compare` (model generator = normalised real instruction list), `recl.run` (VM model on the model-compiled code),
-`recl.ref` (reference semantics), all on the program serialised by `harness/src/recl_sx.rs`. -/
+`recl.ref` (reference semantics), `recl.wf` (the executable premise checker `RbModel.RecL.progWfB` of
+`RecL.compile_correct`: `Thm/RecLWf.lean` proves it sound), all on the program serialised by `harness/src/recl_sx.rs`. -/
 namespace RbModel.Drv.RecL
 open RbModel RbModel.RecL RbModel.RecL.Compile
 open RbModel.Ast (Pos ty?)
@@ -89,6 +91,9 @@ def handle (cmd : String) (args : List Sexp) : Option String :=
       let (st, o) := RbModel.RecL.Ref.run fuel prog.toAst
       let out := outBytes st.out.out
       pure s!"({outcomeStr o} {out} ())"
+  | "recl.wf", [prog] => do
+      let prog ← sprogram? prog
+      pure (if progWfB prog then "(wf true)" else "(wf false)")
   | _, _ => none
 
 end RbModel.Drv.RecL
